@@ -1,1 +1,75 @@
-(* C08 -- theorems to be stated here. *)
+(* C08 -- byte-stream interfaces give the same bytes however the stream is cut into calls.
+   PARTIAL in this file: the keystream wrappers (CTR all flavours, BelT-CTR, OFB) are proved in full
+   generality (any list of pieces, empty pieces included, each piece in place or buffer-to-buffer
+   with any output contents, any block size / parallel width / cipher).  The statements for the
+   buffered CFB types and the prefix-preservation of one-shot CFB / CFB-8 are not proved yet; they
+   are covered only by the correspondence and the implementation-side predicate of gen/props/c08.py. *)
+From BM Require Import BlockModes Plumbing Toy Ints Ctr Belt Stream Cts Stream_proofs Interp Interp_proofs
+  Wrapper_proofs Wrapper_inst.
+
+(* the abstract refinement: a successful call xors the input with the keystream read from the current
+   position and advances the position by exactly the request; a request that does not fit is an
+   error that changes nothing (over any core satisfying the laws of Wrapper_proofs.v) *)
+Theorem C08_generic_pieces : forall (St : Type) (K : score St), 0 < sc_bs K ->
+  forall (at_block : N -> St) (KB : N -> block) (limit : option N),
+  (forall p, below limit p -> sc_gen K (at_block p) = (at_block (p + 1)%N, KB p)) ->
+  (forall p, exists p', fst (sc_gen K (at_block p)) = at_block p') ->
+  (1 < sc_w K -> forall p, sc_gen_par K (at_block p) = gen_n K (sc_w K) (at_block p)) ->
+  (forall p, upto limit p ->
+     sc_remaining K (at_block p) = match limit with Some L => to_usize (L - p) | None => None end) ->
+  (forall p, length (KB p) = sc_bs K) ->
+  forall ps nb wst, WInv K at_block KB limit nb wst -> Forall piece_ok ps ->
+  let whole := concat (map piece_src ps) in
+  (N.of_nat (length whole) <= usize_max)%N -> fits K limit nb (wr_pos wst) (length whole) ->
+  exists w1 w2 out, apply_all K wst ps = Ok (w1, out) /\ try_apply K wst true whole whole = Ok (w2, out) /\
+                    wr_pos w1 = wr_pos w2 /\ wr_core w1 = wr_core w2.
+Proof. intros. eapply chunking_independent; eauto. Qed.
+Print Assumptions C08_generic_pieces.
+
+(* CTR, every flavour (cs = counter bytes, be = big endian), block size = cs * |nonce chunks| *)
+Theorem C08_ctr : forall cs be (C : cipher) (nonce : list N), cipher_wf C -> c_bs C = cs * length nonce ->
+  forall ps nb wst, CtrInv cs be C nonce nb wst -> Forall piece_ok ps ->
+  let K := kscore C (SCtr cs be) in
+  let whole := concat (map piece_src ps) in
+  (N.of_nat (length whole) <= usize_max)%N -> fits K (ctr_limit cs) nb (wr_pos wst) (length whole) ->
+  exists w1 w2 out, apply_all K wst ps = Ok (w1, out) /\ try_apply K wst true whole whole = Ok (w2, out) /\
+                    wr_pos w1 = wr_pos w2 /\ wr_core w1 = wr_core w2.
+Proof. intros. eapply ctr_chunking; eauto. Qed.
+Print Assumptions C08_ctr.
+
+Theorem C08_ctr_fresh : forall cs be (C : cipher) (nonce : list N), cipher_wf C -> c_bs C = cs * length nonce ->
+  CtrInv cs be C nonce 0%N (from_core (kscore C (SCtr cs be)) (ctr_at nonce 0)).
+Proof. intros. eapply ctr_fresh; eauto. Qed.
+Print Assumptions C08_ctr_fresh.
+
+Theorem C08_belt : forall (C : cipher) si, cipher_wf C -> c_bs C = 16 -> (si < pow2 128)%N ->
+  forall ps nb wst, BeltInv C si nb wst -> Forall piece_ok ps ->
+  let K := kscore C SBelt in
+  let whole := concat (map piece_src ps) in
+  (N.of_nat (length whole) <= usize_max)%N -> fits K belt_limit nb (wr_pos wst) (length whole) ->
+  exists w1 w2 out, apply_all K wst ps = Ok (w1, out) /\ try_apply K wst true whole whole = Ok (w2, out) /\
+                    wr_pos w1 = wr_pos w2 /\ wr_core w1 = wr_core w2.
+Proof. intros. eapply belt_chunking; eauto. Qed.
+Print Assumptions C08_belt.
+
+Theorem C08_ofb : forall (C : cipher) iv, cipher_wf C -> length iv = c_bs C ->
+  forall ps nb wst, OfbInv C iv nb wst -> Forall piece_ok ps ->
+  let K := kscore C SOfb in
+  let whole := concat (map piece_src ps) in
+  (N.of_nat (length whole) <= usize_max)%N ->
+  exists w1 w2 out, apply_all K wst ps = Ok (w1, out) /\ try_apply K wst true whole whole = Ok (w2, out) /\
+                    wr_pos w1 = wr_pos w2 /\ wr_core w1 = wr_core w2.
+Proof. intros. eapply ofb_chunking; eauto. Qed.
+Print Assumptions C08_ofb.
+
+Theorem C08_fresh_states : forall (C : cipher) si iv, cipher_wf C -> c_bs C = 16 -> (si < pow2 128)%N -> length iv = c_bs C ->
+  BeltInv C si 0%N (from_core (kscore C SBelt) (belt_at si 0)) /\
+  OfbInv C iv 0%N (from_core (kscore C SOfb) (ofb_at C iv 0)).
+Proof. intros. split; [eapply belt_fresh; eauto | eapply ofb_fresh; eauto]. Qed.
+Print Assumptions C08_fresh_states.
+
+(* non-vacuity: pieces with an empty piece, an in-place piece and a buffer-to-buffer piece are well formed *)
+Example C08_pieces_example :
+  Forall piece_ok [(true, [1;2;3], [1;2;3]); (true, [], []); (false, [4;5], [9;9])]%N.
+Proof. repeat constructor; cbn; auto; discriminate. Qed.
+Print Assumptions C08_pieces_example.
